@@ -63,16 +63,17 @@ class Variables:
         return "".join(text if protected else self._inline(text) for protected, text in _split_protected(sql))
 
     def _inline(self, sql: str) -> str:
-        for name, value in self._variables.items():
-            # match the whole variable name only (ie: not $var1 in $var10) and insert the value verbatim
-            # (ie: not as a regex template in which backslashes are special)
-            sql = re.sub(rf"\${re.escape(name)}(?!\w)", lambda _, value=value: value, sql, flags=re.IGNORECASE)
+        # one pass: every $name that doesn't follow another $ stands for the variable of that name (in any letter case).
+        # Values are inserted verbatim (ie: not as regex templates) and are not scanned again, so they may contain $ signs
+        def value_of(reference: re.Match) -> str:
+            name = reference.group(1).upper()
+            if (value := next((v for n, v in self._variables.items() if n.upper() == name), None)) is None:
+                raise snowflake.connector.errors.ProgrammingError(
+                    msg=f"Session variable '{reference.group().upper()}' does not exist"
+                )
+            return value
 
-        if remaining_variables := re.search(r"(?<!\$)\$\w+", sql):
-            raise snowflake.connector.errors.ProgrammingError(
-                msg=f"Session variable '{remaining_variables.group().upper()}' does not exist"
-            )
-        return sql
+        return re.sub(r"(?<!\$)\$(\w+)", value_of, sql)
 
 
 def _split_protected(sql: str) -> list[tuple[bool, str]]:
